@@ -79,7 +79,7 @@ def prepare_lib(ctx):
     return dst
 
 
-def hook_script(lib, case, marker, deep, midfail=False):
+def hook_script(lib, case, marker, deep, midfail=False, exits=False):
     failing = set(case["failing"])
     lines = ["#!/usr/bin/env bash", "source %s" % lib, "", "function __config__() {", "cat <<'VERIF_EOF'",
              (CONFIG_TEXT % marker).rstrip("\n"), "VERIF_EOF", "}", ""]
@@ -94,6 +94,9 @@ def hook_script(lib, case, marker, deep, midfail=False):
             # two ways for a handler to fail under the library's strict mode: an explicit non-zero return, or a failing
             # command in the middle of the function (errexit ends the handler there; what follows would succeed)
             lines += (["  false", "  true"] if midfail else ["  return 3"])
+        elif exits:
+            # a handler may end with `exit 0`: it runs in a subshell of its own, the run goes on with the next context
+            lines.append("  exit 0")
         lines += ["}", ""]
     lines += ['hook::run "$@"', ""]
     return "\n".join(lines)
@@ -107,7 +110,7 @@ def run_case(lib, base, n, case):
     marker = "m%d" % n
     hook = os.path.join(d, "hook.sh")
     with open(hook, "w") as f:
-        f.write(hook_script(lib, case, marker, deep, midfail=(n % 2 == 1)))
+        f.write(hook_script(lib, case, marker, deep, midfail=(n % 2 == 1), exits=(n % 3 == 1)))
     logp = os.path.join(d, "log")
     open(logp, "w").close()
     env = {k: v for k, v in os.environ.items() if not k.startswith("BINDING_CONTEXT")}
@@ -292,7 +295,8 @@ def check_c19(ctx):
                 break
     ctx.assumptions += ["the handler-name table of the spec header is the documented one (the repository documents the binding contexts, "
                         "not the handler names; the table follows the property statement and DESIGN 5/C19)",
-                        "a failing handler is a function returning 3 or (every other case) a function with a failing command in its middle (strict mode); only zero / non-zero is compared",
+                        "a failing handler is a function returning 3 or (every other case) a function with a failing command in its middle (strict mode); "
+                        "in every third case the succeeding handlers end with `exit 0`; only zero / non-zero is compared",
                         "bash and jq of the sandbox (bash 5.2, jq 1.6) are the interpreter of the code under test"]
     vlib.finish(ctx, rule="cases = finished runs of spec/ShellFramework enumerated exhaustively by TLC (quick: seeded stratified sample), each executed "
                           "once on the real framework; distinct_nontrivial = distinct (contexts, defined, failing) whose expected log has at least "
